@@ -62,6 +62,17 @@ Proof.
 Qed.
 Print Assumptions C13_seek_no_panic.
 
+(* the same for file nodes whose children have to be opened to be measured (File/Unsized.v): measuring any DAG under
+   any set of unavailable blocks, and any Seek over it, gives a value or an error *)
+From UV Require Import File.Unsized File.UnsizedSafe.
+Theorem C13_unsized_length_no_panic : forall fault b, usize fault b <> Panic.
+Proof. exact usize_no_panic. Qed.
+Print Assumptions C13_unsized_length_no_panic.
+Theorem C13_unsized_seek_no_panic : forall fault root st off whence,
+  snd (ureader_step fault root st (OpSeek off whence)) <> OSeek Panic.
+Proof. exact useek_no_panic. Qed.
+Print Assumptions C13_unsized_seek_no_panic.
+
 (* ---- work bounds ---- *)
 From UV Require Import Hamt.HashBitsSpec Hamt.IterOrder Hamt.WorkBound.
 Local Open Scope N_scope.
